@@ -11,6 +11,12 @@ func (payload *SubAccWagerTicketPayload) Validate(betAmount sdkmath.Int) error {
 		return sdkerrtypes.ErrInvalidRequest.Wrap("main account and subaccount deduction should be set")
 	}
 
+	// a negative part would make the other one exceed the bet amount, so that more than
+	// the stake leaves the (possibly still locked) subaccount for the owner's free balance.
+	if payload.MainaccDeductAmount.IsNegative() || payload.SubaccDeductAmount.IsNegative() {
+		return sdkerrtypes.ErrInvalidRequest.Wrap("main account and subaccount deduction should not be negative")
+	}
+
 	if !payload.MainaccDeductAmount.Add(payload.SubaccDeductAmount).Equal(betAmount) {
 		return sdkerrtypes.ErrInvalidRequest.Wrap("sum of main and sub account deduction should be equal to bet amount")
 	}
